@@ -97,7 +97,7 @@ def run(tier: str, driver_ok: bool) -> Result:
         "every response bundle judged by dnspython; non-trivial = distinct scenario"
     )
     r = lib.rng("C01")
-    scenarios = grid(r)
+    scenarios = grid(r) + S.special_scenarios(r)
     for _ in range(60 if tier == "quick" else 700):
         scenarios.append(S.gen_scenario(r, quick=(tier == "quick")))
     runs = []
